@@ -255,7 +255,7 @@ pub fn run_c04(tier: &str, seed: u64, replay: Option<&str>) -> (Meta, Report) {
     let m = (n - off + stride - 1) / stride;
     let mut rep = run_cases(m, "c04-sys", move |i| c04_case("sys", off + i * stride, seed), judge_c04);
     rep.add("cases:sys", m as u64);
-    let nr = if thorough { 60_000 } else { 3_000 };
+    let nr = if thorough { 400_000 } else { 3_000 };
     rep.merge(run_cases(nr, "c04-rand", move |i| c04_case("rand", i, seed), judge_c04));
     rep.add("cases:rand", nr as u64);
     let mut meta = meta;
@@ -543,10 +543,10 @@ pub fn run_c10(tier: &str, seed: u64, replay: Option<&str>) -> (Meta, Report) {
     let m = (n - off + stride - 1) / stride;
     let mut rep = run_cases(m, "c10-sys", move |i| c10_case("sys", off + i * stride, seed), judge_c10);
     rep.add("cases:sys", m as u64);
-    let nr = if thorough { 60_000 } else { 3_000 };
+    let nr = if thorough { 400_000 } else { 3_000 };
     rep.merge(run_cases(nr, "c10-rand", move |i| c10_case("rand", i, seed), judge_c10));
     rep.add("cases:rand", nr as u64);
-    let np = if thorough { 3_000 } else { 300 };
+    let np = if thorough { 20_000 } else { 300 };
     rep.merge(run_cases(np, "c10-replay", move |i| c10_case("replay", i, seed), judge_c10));
     rep.add("cases:replay", np as u64);
     (meta, rep)
@@ -722,7 +722,7 @@ pub fn run_c13b(rep_out: &mut Report, tier: &str, seed: u64, replay: Option<&str
         rep_out.merge(run_single(c13b_case(&fam, idx, sd).expect("case"), judge_c13b));
         return;
     }
-    let nr = if tier == "thorough" { 80_000 } else { 4_000 };
+    let nr = if tier == "thorough" { 800_000 } else { 4_000 };
     let rep = run_cases(nr, "c13b-rand", move |i| c13b_case("rand", i, seed), judge_c13b);
     rep_out.merge(rep);
     rep_out.add("cases:rand", nr as u64);
@@ -1149,7 +1149,7 @@ pub fn run_c17b(rep_out: &mut Report, tier: &str, seed: u64, replay: Option<&str
     rep_out.merge(rep);
     rep_out.add("cases:sys", m as u64);
     rep_out.add("cases:sys-space", n as u64);
-    let nm = if tier == "thorough" { 30_000 } else { 1_500 };
+    let nm = if tier == "thorough" { 600_000 } else { 1_500 };
     rep_out.merge(run_cases(nm, "c17b-mixed", move |i| c17_case("mixed", i, seed), judge_c17b));
     rep_out.add("cases:mixed", nm as u64);
 }
